@@ -22,10 +22,10 @@ DsDims(vs) == IF vs = <<>> THEN <<>>
               ELSE LET rest == DsDims(SubSeq(vs, 1, Len(vs) - 1)) IN rest \o SelectSeq(vs[Len(vs)], LAMBDA d : d \notin Rng(rest))
 
 OpsOnDim == {"take_scalar_keepdims", "isel_scalar_keepdims", "take_scalar", "take_list", "take_slice", "take_position", "isel_scalar", "sel_list",
-             "mean", "sum", "std", "var", "median", "take_axis", "take_axis_wrap", "take_axis_clip", "sort_axis", "reindex_axis", "reindex_fill", "reindex_left", "reindex_right", "interp_axis", "interp_axis_oob"}
+             "mean", "sum", "std", "var", "median", "take_axis", "take_axis_wrap", "take_axis_clip", "sort_axis", "reindex_axis", "reindex_fill", "reindex_left", "reindex_right", "interp_axis", "interp_axis_oob", "interp_axis_nodes"}
 Drops == {"take_scalar", "isel_scalar", "mean", "sum", "std", "var", "median"}
 CarriesAttrs == {"take_scalar_keepdims", "isel_scalar_keepdims", "take_scalar", "take_list", "take_slice", "take_position", "isel_scalar", "sel_list", "take_axis", "take_axis_wrap", "take_axis_clip", "sort_axis",
-                 "reindex_axis", "reindex_fill", "reindex_left", "reindex_right", "interp_axis", "interp_axis_oob"}
+                 "reindex_axis", "reindex_fill", "reindex_left", "reindex_right", "interp_axis", "interp_axis_oob", "interp_axis_nodes"}
 Whole == {"add_ds", "mul_scalar", "rsub_scalar", "neg", "stack_ds", "concatenate_ds", "construct_misaligned",
           "add_ds_misaligned", "sub_ds_misaligned", "stack_ds_align", "stack_ds_align_sort_same", "concatenate_ds_align", "concatenate_ds_align_pos",
           "concatenate_ds_mismatch", "to_array", "to_array_default", "to_array_keys", "to_array_roundtrip"}
@@ -44,7 +44,7 @@ Choose ==
   /\ \E n \in 1..MaxVars : \E vs \in [1..n -> VarPool] :
        LET dd == DsDims(vs) IN
        \/ \E o \in OpsOnDim : \E d \in Rng(dd) : \E byname \in BOOLEAN :
-            /\ (o \in {"interp_axis", "interp_axis_oob", "reindex_fill", "reindex_left", "reindex_right"} => d = "x" \/ d = "y")
+            /\ (o \in {"interp_axis", "interp_axis_oob", "interp_axis_nodes", "reindex_fill", "reindex_left", "reindex_right"} => d = "x" \/ d = "y")
             /\ in' = [vars |-> vs, op |-> o, d |-> d, byname |-> byname]
             /\ out' = [affected |-> [i \in 1..n |-> d \in Rng(vs[i])],
                        dims |-> IF o \in Drops THEN SelectSeq(dd, LAMBDA q : q # d) ELSE dd,
